@@ -104,12 +104,24 @@ class AddressOffsetEa(Constructor):
 
 
 class ImmediateEa(Constructor):
-    """Access an immediate value"""
+    """Access an immediate value (byte and word sized operations)"""
 
     imm = Operand("imm", int)
     syntax = Syntax(["#", imm])
     patterns = {"ea_mode": 0b111, "ea_register": 0b100, "imm16": imm}
     tokens = [Imm16Token]
+
+
+class ImmediateLongEa(Constructor):
+    """Access a 32 bit immediate value (long sized operations).
+
+    The immediate data of a long operation occupies two extension words.
+    """
+
+    imm = Operand("imm", int)
+    syntax = Syntax(["#", imm])
+    patterns = {"ea_mode": 0b111, "ea_register": 0b100, "imm32": imm}
+    tokens = [Imm32Token]
 
 
 class PcRelEa(Constructor):
@@ -156,6 +168,12 @@ data_ea_modes = (
     PcRelEa,
     AbsNearEa,
 )
+
+
+def long_sized(modes):
+    """The same addressing modes for a long sized operation"""
+    return tuple(ImmediateLongEa if m is ImmediateEa else m for m in modes)
+
 
 # Data alterable addressing modes (operand is written):
 data_alterable_ea_modes = (DataRegEa, AddressEa, AddressOffsetEa, AbsNearEa)
@@ -286,10 +304,12 @@ def make_jmp(mnemonic, opcode):
 # Instruction classes:
 Addb = make_ea_dn("addb", 0b1101, opmode=0b000, modes=data_ea_modes)
 Addw = make_ea_dn("addw", 0b1101, opmode=0b001)
-Addl = make_ea_dn("addl", 0b1101, opmode=0b010)
+Addl = make_ea_dn("addl", 0b1101, opmode=0b010, modes=long_sized(ea_modes))
 Andb = make_ea_dn("andb", 0b1100, opmode=0b000, modes=data_ea_modes)
 Andw = make_ea_dn("andw", 0b1100, opmode=0b001, modes=data_ea_modes)
-Andl = make_ea_dn("andl", 0b1100, opmode=0b010, modes=data_ea_modes)
+Andl = make_ea_dn(
+    "andl", 0b1100, opmode=0b010, modes=long_sized(data_ea_modes)
+)
 
 Bne = make_jmp("bne", 0x66)
 Beq = make_jmp("beq", 0x67)
@@ -301,7 +321,7 @@ Bra = make_jmp("bra", 0x60)  # Unconditional branch
 Bsr = make_jmp("bsr", 0x61)  # Branch subroutine
 Cmpb = make_ea_dn("cmpb", 0b1011, opmode=0b000, modes=data_ea_modes)
 Cmpw = make_ea_dn("cmpw", 0b1011, opmode=0b001)
-Cmpl = make_ea_dn("cmpl", 0b1011, opmode=0b010)
+Cmpl = make_ea_dn("cmpl", 0b1011, opmode=0b010, modes=long_sized(ea_modes))
 Eorb = make_dn_ea("eorb", 0b1011, opmode=0b100)
 Eorw = make_dn_ea("eorw", 0b1011, opmode=0b101)
 Eorl = make_dn_ea("eorl", 0b1011, opmode=0b110)
@@ -331,7 +351,7 @@ class Moveal(M68kInstruction):
     """32 bit movea"""
 
     dst = Operand("dst", AddressRegister, write=True)
-    ea = Operand("ea", ea_modes)
+    ea = Operand("ea", long_sized(ea_modes))
     syntax = Syntax(["moveal", " ", ea, ",", " ", dst])
     patterns = {"opcode": 0x2, "opmode": 1, "register": dst}
     tokens = [M68kToken]
@@ -359,7 +379,7 @@ class Movel(M68kInstruction):
     """32 bit move"""
 
     dst_ea = Operand("dst_ea", dst_ea_modes)
-    ea = Operand("ea", ea_modes)
+    ea = Operand("ea", long_sized(ea_modes))
     syntax = Syntax(["movel", " ", ea, ",", " ", dst_ea])
     patterns = {"opcode": 0x2}
     tokens = [M68kToken]
@@ -377,10 +397,12 @@ class Moveq(M68kInstruction):
 
 Orb = make_ea_dn("orb", 0b1000, opmode=0b000, modes=data_ea_modes)
 Orw = make_ea_dn("orw", 0b1000, opmode=0b001, modes=data_ea_modes)
-Orl = make_ea_dn("orl", 0b1000, opmode=0b010, modes=data_ea_modes)
+Orl = make_ea_dn(
+    "orl", 0b1000, opmode=0b010, modes=long_sized(data_ea_modes)
+)
 Subb = make_ea_dn("subb", 0b1001, opmode=0b000, modes=data_ea_modes)
 Subw = make_ea_dn("subw", 0b1001, opmode=0b001)
-Subl = make_ea_dn("subl", 0b1001, opmode=0b010)
+Subl = make_ea_dn("subl", 0b1001, opmode=0b010, modes=long_sized(ea_modes))
 
 Jsr = make_ea("jsr", 0x4E, 2, modes=control_ea_modes)
 
